@@ -58,6 +58,8 @@ enum St {
 
 pub struct M {
   pub nparts: u8,
+  /// events replayed before the explored history: exploration from a non-initial state
+  pub prefix: Vec<Ev>,
 }
 
 fn check_side(side: char, ev: &Ev, old: &BTreeSet<(u8, u8)>, new: &BTreeSet<(u8, u8)>, events: &[SEv], definite: &BTreeSet<(u8, u8)>, maybe: &BTreeSet<(u8, u8)>, prev_total: &mut i32, announced_incompatible: Option<(u8, u8)>) -> Option<Violation> {
@@ -142,6 +144,8 @@ impl Model for M {
     let mut obs = vec![];
     let mut comparisons = 0u64;
     let (mut late_r, mut late_w) = (false, false);
+    let full: Vec<Ev> = self.prefix.iter().cloned().chain(hist.iter().cloned()).collect();
+    let hist: &[Ev] = &full;
     for (step, ev) in hist.iter().enumerate() {
       let last_step = step + 1 == hist.len();
       let mut ann_incompat_w: Option<(u8, u8)> = None; // incompatible writer announced (seen by local reader)
@@ -292,7 +296,7 @@ impl Model for M {
 
 fn model(tier: &str) -> (M, BfsCfg) {
   let t = tier == "thorough";
-  (M { nparts: 2 }, BfsCfg { max_depth: if t { 8 } else { 5 }, threads: 16, wall_cap_s: if t { 2400.0 } else { 55.0 }, state_cap: 20_000_000, merge: true })
+  (M { nparts: 2, prefix: vec![] }, BfsCfg { max_depth: if t { 8 } else { 5 }, threads: 16, wall_cap_s: if t { 2400.0 } else { 55.0 }, state_cap: 20_000_000, merge: true })
 }
 
 pub fn replay(doc: &serde_json::Value) -> i32 {
@@ -327,6 +331,24 @@ pub fn run(tier: &str) -> i32 {
     }
   }
   rep.absorb_bfs("2 remote participants", &m.describe(), &cfg, st);
+  rep.machinery_errors.extend(errs);
+  // ---- the same search from a non-initial state: participant 0 announced a writer and a reader and then
+  // fell silent (its endpoints are parked).  What happens to parked endpoints - disposed meanwhile, found
+  // again, matched by endpoints created later - needs histories two events longer than the quick bound.
+  let prefix = vec![Ev::Spdp(0), Ev::Announce(0, 1, true), Ev::Announce(0, 7, false), Ev::Timeout(0)];
+  let m2 = M { nparts: 2, prefix: prefix.clone() };
+  let cfg2 = BfsCfg { max_depth: if tier == "thorough" { 6 } else { 4 }, ..cfg.clone() };
+  let mut st2 = bfs(&m2, &cfg2, "C11");
+  let mut errs = vec![];
+  for (k, (h, _)) in st2.violations.iter_mut() {
+    let tail: Vec<Ev> = serde_json::from_value(h.clone()).unwrap();
+    let hist: Vec<Ev> = prefix.iter().cloned().chain(tail).collect();
+    *h = serde_json::to_value(&hist).unwrap();
+    if let Err(e) = confirm(&m, &hist, "C11") {
+      errs.push(format!("{k}: {e}"));
+    }
+  }
+  rep.absorb_bfs("2 remote participants, starting after [Spdp(0), Announce writer (0,1), Announce reader (0,7), Timeout(0)]", &m2.describe(), &cfg2, st2);
   rep.machinery_errors.extend(errs);
   rep.assumptions = vec![
     "The harness plays Discovery: per event the same DiscoveryDB call and the same DiscoveryNotificationType as discovery.rs; the notification dispatch table of DPEventLoop::event_loop is mirrored in verif_notify (trusted)".into(),
